@@ -25,9 +25,15 @@ def havoc_before_loop(fn, loop_index, names, havoc):
     tree = ast.parse(src)
     fnode = tree.body[0]
     loops = [st for st in fnode.body if isinstance(st, ast.For)]
-    if loop_index >= len(loops):
-        raise CutError(f"{fn.__qualname__}: {len(loops)} top-level for-loops, loop {loop_index} wanted")
-    loop = loops[loop_index]
+    if callable(loop_index):        # the loop is identified by its header, not by its position
+        sel = [st for st in loops if loop_index(ast.unparse(st.target), ast.unparse(st.iter))]
+        if len(sel) != 1:
+            raise CutError(f"{fn.__qualname__}: {len(sel)} top-level for-loops match the wanted header")
+        loop = sel[0]
+    else:
+        if loop_index >= len(loops):
+            raise CutError(f"{fn.__qualname__}: {len(loops)} top-level for-loops, loop {loop_index} wanted")
+        loop = loops[loop_index]
     pos = fnode.body.index(loop)
     new = []
     for nm in names:
@@ -84,3 +90,46 @@ def one_arbitrary_iteration_of_range_loops(fn, arb):
     diff = [l for l in difflib.unified_diff(ast.unparse(ast.parse(src)).splitlines(), new_src.splitlines(), lineterm="", n=0)
             if not l.startswith(("---", "+++"))]
     return ns[fnode.name], dict(function=fn.__qualname__, loops=rewritten, dropped=["iteration over all indices (one arbitrary index kept)"], diff=diff)
+
+
+def one_iteration_of_while(fn, loop_index, havoc, result_names):
+    """Cuts the `loop_index`-th `while` loop found at the top level of fn (current source):
+
+            <every name in havoc(...)>  = __havoc__("<name>", <name>)     # arbitrary state satisfying the invariant
+            if <loop condition>:
+                <loop body>                                               # ONE iteration of the repository's text
+            return __cut_result__({<result names>})                       # statements after the loop are dropped
+
+    Nested loops inside the body are kept and run to completion."""
+    src = textwrap.dedent(inspect.getsource(fn))
+    tree = ast.parse(src)
+    fnode = tree.body[0]
+    loops = [st for st in fnode.body if isinstance(st, ast.While)]
+    if callable(loop_index):        # the loop is identified by its condition, not by its position
+        sel = [st for st in loops if loop_index(ast.unparse(st.test))]
+        if len(sel) != 1:
+            raise CutError(f"{fn.__qualname__}: {len(sel)} top-level while-loops match the wanted condition (loops: {[ast.unparse(l.test) for l in loops]})")
+        loop = sel[0]
+    else:
+        if loop_index >= len(loops):
+            raise CutError(f"{fn.__qualname__}: {len(loops)} top-level while-loops, loop {loop_index} wanted")
+        loop = loops[loop_index]
+    pos = fnode.body.index(loop)
+    hv = [ast.parse(f"{nm} = __havoc__({nm!r}, {nm})").body[0] for nm in havoc]
+    once = ast.If(test=loop.test, body=loop.body, orelse=[])
+    ret = ast.parse("return __cut_result__({" + ", ".join(f"{n!r}: {n}" for n in result_names) + "})").body[0]
+    dropped = [ast.unparse(s)[:100] for s in fnode.body[pos + 1:]]
+    fnode.body = fnode.body[:pos] + hv + [once, ret]
+    fnode.decorator_list = []
+    ast.fix_missing_locations(tree)
+    code = compile(tree, filename=f"<loop-cut of {fn.__qualname__}>", mode="exec")
+    return code, dict(function=fn.__qualname__, loop_line=loop.lineno, condition=ast.unparse(loop.test), havocked=list(havoc),
+                      dropped=dropped, body=[ast.unparse(s)[:120] for s in loop.body])
+
+
+def instantiate(code, fn, havoc_fn, result_fn=lambda d: d):
+    ns = dict(fn.__globals__)
+    ns["__havoc__"] = havoc_fn
+    ns["__cut_result__"] = result_fn
+    exec(code, ns)
+    return ns[fn.__name__]
